@@ -215,7 +215,7 @@ impl Lockstep {
         for r in mrd.tables[fi].rows.iter().filter(|r| r.subsumed).take(2) {
             let args: Option<Vec<String>> = r.vals[..r.vals.len() - 1].iter().map(|v| mnamer.name(v).map(|x| x.1)).collect();
             let Some(args) = args else { continue };
-            if args.iter().any(|a| a.starts_with('?') || a.starts_with('#') || a.starts_with('[')) {
+            if args.iter().any(|a| a.contains(['?', '#', '['])) {
                 continue;
             }
             let t = if args.is_empty() { format!("({})", decl.name) } else { format!("({} {})", decl.name, args.join(" ")) };
@@ -234,7 +234,7 @@ impl Lockstep {
             for r in mrd.tables[fi].rows.iter().take(3) {
                 let Val::Class(..) = r.vals.last().unwrap() else { continue };
                 let Some((_, root)) = mnamer.name(r.vals.last().unwrap()) else { continue };
-                if root.starts_with('?') || root.starts_with('#') {
+                if root.contains(['?', '#', '[']) {
                     continue;
                 }
                 let text = format!("(extract {root})");
